@@ -11,6 +11,7 @@ from translate_source import translate
 use_repo()
 from pedal.core.commands import clear_report, contextualize_report  # noqa: E402
 from pedal.core.report import MAIN_REPORT  # noqa: E402
+from pedal.core.submission import Submission  # noqa: E402
 from pedal.source import verify  # noqa: E402
 
 THEOREMS = [
@@ -33,6 +34,7 @@ NOTES = [
 ]
 
 FILENAME = "answer.py"
+FILENAMES = ["answer.py", "answer.py", "student.py", "hw/part_b.py", "main.py"]
 BASE_PROGRAMS = [
     "x = 1\nprint(x)\n",
     "def f(a, b):\n    if a > b:\n        return a\n    return b\n\nprint(f(1, 2))\n",
@@ -55,7 +57,7 @@ SPECIALS = ["", " ", "\n", "  \n\t", "\x0c", "\xa0", "a\x00b", "\x00", "x = (", 
             "a=1\r\nb=2\r", "def f():\n\treturn 1\n        return 2", "x = 1 +\n", "(" * 300 + ")" * 300,
             "f(**)", "print 'a'", "x = 0777", "a = 1\n b = 2", "\\", "a = '\\x'", "x = [1,2\n", "class",
             "-" * 100000 + "1", 'x="\ud800"', "\ud800", "\ufeffx=1", "x=1\x1a", "if x:\npass",
-            "x = 1\n\n\n\n  y = 2\n", "def f(:\n pass", "a = 1;;", "1 = x", "x = yield", "return 5", "await x",
+            "x = 1\n\n\n\n  y = 2\n", "def f(:\n pass", "x = 1\ry y", "a = 1\nb = 2\rc c", "a = 1\r\nb b", "x = 1\r", "a = 1;;", "1 = x", "x = yield", "return 5", "await x",
             "f'{'", "0x", "1__0", "x = $", "x = ?", "\t\tx=1", " \x0c\n"]
 
 
@@ -70,10 +72,43 @@ def programs():
     return progs
 
 
+def newline_variant(rng, text):
+    """Rewrite line ends as lone CR / CRLF / a mixture and put a syntax error on a chosen (often the last) line."""
+    lines = text.split("\n")
+    if lines and lines[-1] == "":
+        lines.pop()
+    if not lines:
+        lines = ["x = 1"]
+    if rng.random() < 0.8:
+        bad = rng.choice(["y y", "x = (", "1 = 2", "  z = 3", "def f(:", "c c"])
+        pos = rng.choice([len(lines), len(lines), rng.randint(0, len(lines))])
+        lines.insert(pos, bad)
+    style = rng.choice(["cr", "cr", "crlf", "mixed", "last-cr"])
+    out = []
+    for i, ln in enumerate(lines):
+        out.append(ln)
+        if i == len(lines) - 1:
+            out.append(rng.choice(["", "", "\r", "\n", "\r\n"]))
+        elif style == "cr":
+            out.append("\r")
+        elif style == "crlf":
+            out.append("\r\n")
+        elif style == "last-cr":
+            out.append("\r" if i == len(lines) - 2 else "\n")
+        else:
+            out.append(rng.choice(["\r", "\n", "\r\n"]))
+    return "".join(out)
+
+
 def gen_text(rng, progs):
     r = rng.random()
     if r < 0.06:
         return rng.choice(SPECIALS)
+    if r < 0.20:
+        lines = rng.choice(progs).split("\n")
+        n = rng.randint(1, 6)
+        start = rng.randint(0, max(0, len(lines) - n))
+        return newline_variant(rng, "\n".join(lines[start:start + n]))
     lines = rng.choice(progs).split("\n")
     n = rng.randint(1, 12)
     start = rng.randint(0, max(0, len(lines) - n))
@@ -92,26 +127,31 @@ def gen_text(rng, progs):
     return "".join(chars)
 
 
-def cpython_outcome(code):
+def cpython_outcome(code, filename=FILENAME):
     try:
-        tree = ast.parse(code, FILENAME)
+        tree = ast.parse(code, filename)
         return None, tree
     except BaseException as e:  # noqa
         ln = getattr(e, "lineno", None)
         return (type(e).__name__, ln if isinstance(ln, int) else None), None
 
 
-def run_real(code, offset, load_error=False):
+def run_real(code, offset, load_error=False, filename=FILENAME, explicit=False):
+    """The submission's main file is `filename`; a section offset (if any) is registered for the MAIN FILE,
+    as next_section() does. verify() is called bare, or with the code and file name spelled out."""
     clear_report()
-    contextualize_report(code)
+    # contextualize_report(code, filename=f) stores the file but leaves the MAIN file at 'answer.py';
+    # the main file has to be named explicitly for it to hold the code.
+    contextualize_report(Submission({filename: code}, filename))
     sub = MAIN_REPORT.submission
+    assert sub.main_file == filename and sub.main_code == code, "harness: submission not set up as intended"
     if offset:
-        sub.line_offsets[FILENAME] = offset
+        sub.set_line_offset(offset)
     if load_error:
         sub.load_error = FileNotFoundError("nope")
     out = {"raised": None}
     try:
-        out["returned"] = verify()
+        out["returned"] = verify(code, filename) if explicit else verify()
     except BaseException as e:  # noqa
         out["raised"] = type(e).__name__
         out["detail"] = str(e)[:200]
@@ -214,11 +254,14 @@ def corpus():
 
 def make_cases(rng, n):
     progs = programs()
-    cases = [{"code": c["code"], "offset": c.get("offset", 0)} for c in corpus()]
+    cases = [{"code": c["code"], "offset": c.get("offset", 0), "filename": c.get("filename", FILENAME),
+              "explicit": c.get("explicit", False)} for c in corpus()]
     for s in SPECIALS:
-        cases.append({"code": s, "offset": rng.choice([0, 0, 3])})
+        cases.append({"code": s, "offset": rng.choice([0, 0, 3]), "filename": rng.choice(FILENAMES),
+                      "explicit": rng.random() < 0.3})
     for _ in range(n):
-        cases.append({"code": gen_text(rng, progs), "offset": rng.choice([0, 0, 0, 1, 5, 40])})
+        cases.append({"code": gen_text(rng, progs), "offset": rng.choice([0, 0, 0, 1, 5, 40]),
+                      "filename": rng.choice(FILENAMES), "explicit": rng.random() < 0.3})
     return cases
 
 
@@ -226,16 +269,19 @@ def correspond(rng, tier, driver):
     res = CorrResult()
     res.rule = ("texts = corpus + 44 special strings (NUL, FF, CR, NBSP, BOM, lone surrogate, parser give-up, ...) + "
                 "1-12 line windows of 15 built-in programs and /repo/examples with 0-3 random char insertions/deletions; "
-                "random section line offsets; real = pedal.source.verify on MAIN_REPORT, model = Pedal.Source.verify fed "
+                "a line-terminator family (lone CR / CRLF / mixed line ends with a syntax error on the last or a random "
+                "line); random section line offsets registered for the main file; main file named answer.py / student.py "
+                "/ hw/part_b.py / main.py; verify() called bare or as verify(code, filename); real = pedal.source.verify on MAIN_REPORT, model = Pedal.Source.verify fed "
                 "with ast.parse's own outcome; non-trivial = text rejected by the parser, blank, or offset > 0")
     n = 600 if tier == "quick" else 12000
     cases = make_cases(rng, n)
     # a few load-error cases (correspondence only)
-    extra = [{"code": "x = 1", "offset": 0, "load_error": True}, {"code": "x = (", "offset": 2, "load_error": True}]
+    extra = [{"code": "x = 1", "offset": 0, "load_error": True, "filename": FILENAME, "explicit": False},
+             {"code": "x = (", "offset": 2, "load_error": True, "filename": "student.py", "explicit": False}]
     rows, lines = [], []
     for c in cases + extra:
-        outcome, tree = cpython_outcome(c["code"])
-        real = run_real(c["code"], c["offset"], c.get("load_error", False))
+        outcome, tree = cpython_outcome(c["code"], c["filename"])
+        real = run_real(c["code"], c["offset"], c.get("load_error", False), c["filename"], c["explicit"])
         rows.append((c, outcome, tree, real))
         lines.append(model_request(c["code"], c["offset"], outcome, c.get("load_error", False)))
     answers = driver.ask(lines)
@@ -247,8 +293,12 @@ def correspond(rng, tier, driver):
             res.count("lineno-none")
         if c["code"].strip() == "":
             res.count("blank")
+        res.count("file:" + c["filename"])
+        res.count("verify:" + ("explicit" if c["explicit"] else "bare"))
+        if "\r" in c["code"]:
+            res.count("has-CR")
         if outcome is not None or c["code"].strip() == "" or c["offset"]:
-            res.nontrivial.add(json.dumps([c["code"], c["offset"]]))
+            res.nontrivial.add(json.dumps([c["code"], c["offset"], c["filename"], c["explicit"]]))
         d = compare(real, model, tree)
         if d:
             real_c = {k: v for k, v in real.items() if k != "tree"}
@@ -300,8 +350,8 @@ def search(rng, tier, broken, corr):
         sig = v[0]
 
         def fails(code):
-            o, t = cpython_outcome(code)
-            r = run_real(code, c["offset"])
+            o, t = cpython_outcome(code, c["filename"])
+            r = run_real(code, c["offset"], False, c["filename"], c["explicit"])
             vv = oracle(code, c["offset"], o, t, r)
             return vv is not None and vv[0] == sig
         small = shrink_text(c["code"], c["offset"], fails) if len(c["code"]) < 5000 else c["code"]
@@ -309,10 +359,11 @@ def search(rng, tier, broken, corr):
         if key in seen:
             return
         seen.add(key)
-        o, t = cpython_outcome(small)
-        r = run_real(small, c["offset"])
+        o, t = cpython_outcome(small, c["filename"])
+        r = run_real(small, c["offset"], False, c["filename"], c["explicit"])
         vv = oracle(small, c["offset"], o, t, r) or v
-        failures.append(Failure(sig, vv[1], {"code": small, "offset": c["offset"], "cpython": o}))
+        failures.append(Failure(sig, vv[1], {"code": small, "offset": c["offset"], "cpython": o,
+                                            "filename": c["filename"], "explicit": c["explicit"]}))
 
     for row in getattr(corr, "rows", []):
         consider(*row)
@@ -326,8 +377,8 @@ def search(rng, tier, broken, corr):
     for c in make_cases(rng, n):
         if len(failures) >= 5:
             break
-        outcome, tree = cpython_outcome(c["code"])
-        real = run_real(c["code"], c["offset"])
+        outcome, tree = cpython_outcome(c["code"], c["filename"])
+        real = run_real(c["code"], c["offset"], False, c["filename"], c["explicit"])
         consider(c, outcome, tree, real)
     info["distinct_nontrivial"] = len(nt)
     return failures, info
@@ -338,8 +389,8 @@ def replay(payload):
     if "code" not in rp:
         print(json.dumps(payload, indent=1)[:3000])
         return 0
-    outcome, tree = cpython_outcome(rp["code"])
-    real = run_real(rp["code"], rp.get("offset", 0))
+    outcome, tree = cpython_outcome(rp["code"], rp.get("filename", FILENAME))
+    real = run_real(rp["code"], rp.get("offset", 0), False, rp.get("filename", FILENAME), rp.get("explicit", False))
     real.pop("tree", None)
     print("code:", repr(rp["code"]))
     print("cpython:", outcome)
